@@ -12,6 +12,15 @@ rep = F.get('normalize', {})
 if rep.get('inlined_helpers'):
     sys.exit('refusing: the current tree has helpers outside the vocabulary: %s' % rep['inlined_helpers'][:5])
 names = sorted({vocab_key(f['qname']) for f in F['functions'].values()})
+from tsa.astq import walk
+locs = {}
+for fid, f in F['functions'].items():
+    root = F['functions'].get(fid.split('::<lambda@', 1)[0], f)
+    key = vocab_key(root['qname'])
+    for n in walk(f.get('body')):
+        if n.get('k') == 'var' and n.get('name'):
+            locs.setdefault(key, set()).add(str(n['name']).split('@')[0])
+locs = {k: sorted(v) for k, v in sorted(locs.items())}
 json.dump({'_comment': 'qualified function names of the pinned tree (+ fix commits); see tsa/normalize.py',
-           'functions': names}, open(os.path.join(HERE, 'tsa', 'tables', 'vocabulary.json'), 'w'), indent=0)
+           'functions': names, 'locals': locs}, open(os.path.join(HERE, 'tsa', 'tables', 'vocabulary.json'), 'w'), indent=0)
 print(len(names), 'names')
